@@ -364,6 +364,22 @@ package table
 //@   at-call bgp.NewAs4PathParam(segType, newAsList) requires int(repeat) > 0 ==> arg1[0] == asn && arg1[int(repeat)-1] == asn
 //@   at-call bgp.NewAs4PathParam(segType, asns) requires len(arg1) > 0 && arg1[0] == asn && arg1[len(arg1)-1] == asn
 
+// from C10 "what is read back equals what was configured": removing conditions / actions from a statement removes
+// the ones that were named - the element cut out of the working copy is the one of the named type
+//@ interface Condition.Type
+//@   pure
+//@ interface Action.Type
+//@   pure
+//@ func (*Statement).mod
+//@   requires lhs != nil && rhs != nil
+//@   requires forall k int :: 0 <= k && k < len(lhs.Conditions) ==> lhs.Conditions[k] != nil
+//@   requires forall k int :: 0 <= k && k < len(rhs.Conditions) ==> rhs.Conditions[k] != nil
+//@   requires forall k int :: 0 <= k && k < len(lhs.ModActions) ==> lhs.ModActions[k] != nil
+//@   requires forall k int :: 0 <= k && k < len(rhs.ModActions) ==> rhs.ModActions[k] != nil
+//@   claims at-call
+//@   at-call append(cs[:i], cs[i+1:]...) requires i < len(cs) && cs[i] != nil && cs[i].Type() == x.Type()
+//@   at-call append(as[:i], as[i+1:]...) requires i < len(as) && as[i] != nil && as[i].Type() == x.Type()
+
 // from C16: the verdict as the policy condition uses it. ROATable.Validate gives no verdict (nil) for withdrawals and
 // for families that have no ROA table (everything but IPv4/IPv6 unicast); the rpki condition, which is evaluated for
 // every family, must not dereference that
